@@ -3,6 +3,6 @@ Require Import IW.JSON.Val IW.JSON.Binn IW.JSON.Ptr IW.JSON.Text IW.JSON.BinnAcc
 Extraction "m.ml" Z.add Z.mul Z.sub Z.div_eucl Z.compare Z.of_nat Z.to_nat Z.opp
   binn_encode binn_decode root_bval binn_clone binn_clone_into_pool
   ptr_parse3 at_tree at_tree2 at_binn at_binn2 jbn_clone rfc6901_at rfc_ptr_parse wf
-  dec_node as_json jbl_as_json_binn jbl_type jbl_count jbl_members
+  dec_node as_json jbl_as_json_binn jbl_type jbl_count jbl_size jbl_members
   jbl_object_get_type jbl_object_get_fill jbl_object_get_i64 jbl_object_get_f64 jbl_object_get_bool jbl_object_get_str
   fits cdom keys_fit enc_size ptr_serialize ptr_cmp.
